@@ -41,6 +41,8 @@ type Case struct {
 	Pieces   []int     `json:"pieces,omitempty"`
 	BufSize  int       `json:"bufio_size"`     // size of the caller's bufio.Reader (>= 4096 is adopted by the scanner)
 	Fill     bool      `json:"fill,omitempty"` // extended: 0xFF fill bytes before markers
+	// TermDHT: a Huffman table (DHT) segment sits between the last generated segment and the quantisation table
+	TermDHT bool `json:"term_dht,omitempty"`
 }
 
 type exifCall struct {
@@ -58,7 +60,11 @@ type model struct {
 
 func build(c Case) model {
 	var m model
-	segs := append(append([]gen.Seg{}, c.Segs...), gen.DQT())
+	segs := append([]gen.Seg{}, c.Segs...)
+	if c.TermDHT { // a Huffman table in front of the quantisation table, after the last metadata segment
+		segs = append(segs, gen.Seg{Marker: 0xC4, Payload: append([]byte{0x00, 0, 1, 5, 1, 1, 1, 1, 1, 1, 0, 0, 0, 0, 0, 0, 0}, []byte{0, 1, 2, 3, 4, 5, 6, 7, 8, 9, 10, 11}...), Kind: "other"})
+	}
+	segs = append(segs, gen.DQT())
 	out := []byte{0xFF, 0xD8}
 	for _, s := range segs {
 		if !c.Fill {
@@ -327,6 +333,7 @@ func genWith(fill bool) func(rt *rapid.T) Case {
 			c.Pieces = rapid.SliceOfN(rapid.SampledFrom([]int{1, 2, 3, 7, 8, 64, 1000, 4096, 5000}), 0, 4).Draw(rt, "pieces")
 		}
 		c.BufSize = rapid.SampledFrom([]int{4096, 4096, 8192, 65536}).Draw(rt, "bufsize")
+		c.TermDHT = gen.Chance(rt, "term-dht", 0.2)
 		n := rapid.IntRange(0, 12).Draw(rt, "nsegs")
 		nExif, nXMP, before := 0, 0, 0
 		for i := 0; i < n; i++ {
@@ -368,7 +375,7 @@ func genWith(fill bool) func(rt *rapid.T) Case {
 		}
 		underRead := c.XMPRead == "nothing" || c.XMPRead == "part"
 		nt := (nExif+nXMP >= 2 || nExif+nXMP >= 1 && before >= 2) && (underRead || nXMP == 0)
-		cls := []string{"exif-cb:" + c.ExifRead, "xmp-cb:" + c.XMPRead, fmt.Sprintf("metadata-segments:%d", nExif+nXMP)}
+		cls := []string{fmt.Sprintf("dht-before-dqt:%v", c.TermDHT), "exif-cb:" + c.ExifRead, "xmp-cb:" + c.XMPRead, fmt.Sprintf("metadata-segments:%d", nExif+nXMP)}
 		if nXMP > 0 && nExif > 0 {
 			cls = append(cls, "both-kinds")
 		}
@@ -394,7 +401,7 @@ func init() { pbt.Register(chk); pbt.Register(chkFill) }
 
 func TestProp(t *testing.T) {
 	defer rec.MustWrite()
-	rec.Rule("marker streams SOI, S1..Sn (n <= 12), DQT, >= 70 bytes of image data with Si from {APP0 JFIF, COM, near-miss APP1 prefixes, ICC APP2, Photoshop APP13, DRI, Exif-looking payloads under other markers, APP3..APP15 with random payloads incl. 0xFF bytes and nested SOI/EOI, segments at and just below the largest statable length (0xFFFF) filled with marker look-alikes, XMP-extension APP1, SOF0-2, up to two Exif-APP1 (random TIFF blocks with embedded thumbnails, or encoder output for the library's reader) and up to two XMP-APP1 of 0..65000 bytes}; " +
+	rec.Rule("marker streams SOI, S1..Sn (n <= 12), [DHT in 20 %], DQT, >= 70 bytes of image data with Si from {APP0 JFIF, COM, near-miss APP1 prefixes, ICC APP2, Photoshop APP13, DRI, Exif-looking payloads under other markers, APP3..APP15 with random payloads incl. 0xFF bytes and nested SOI/EOI, segments at and just below the largest statable length (0xFFFF) filled with marker look-alikes, XMP-extension APP1, SOF0-2, up to two Exif-APP1 (random TIFF blocks with embedded thumbnails, or encoder output for the library's reader) and up to two XMP-APP1 of 0..65000 bytes}; " +
 		"callbacks: Exif reads its declared length in generated pieces / is the library's DecodeJPEGIfd / is nil; XMP reads nothing / a prefix / everything / everything in odd pieces / is nil; caller's bufio.Reader of 4 KiB..64 KiB. " +
 		"oracle (computed by the writer): callbacks run exactly for the metadata segments, in order; header byte order, first-IFD offset, absolute TIFF offset and length; bytes readable inside each callback == payload, then EOF; error nil; the caller's reader stands just after the DQT segment. " +
 		"non-trivial = >= 2 metadata segments, or one preceded by >= 2 other segments, with an XMP callback that under-reads (or no XMP segment); distinct by (stream, callback behaviour)")
